@@ -38,6 +38,7 @@ type SCall struct {
 type SQVar struct{ Name, Type string }
 type SQuant struct {
 	Forall bool
+	Kind   string // "" (forall/exists), "sum", "count"
 	Vars   []SQVar
 	In     SExpr // optional collection for the (single) variable
 	Body   SExpr
@@ -65,6 +66,9 @@ func (e *SQuant) String() string {
 	q := "exists"
 	if e.Forall {
 		q = "forall"
+	}
+	if e.Kind != "" {
+		q = e.Kind
 	}
 	var vs []string
 	for _, v := range e.Vars {
@@ -321,8 +325,29 @@ func (p *sparser) parsePostfix() SExpr {
 			e = &SLit{"bool", t.v}
 		case "nil":
 			e = &SLit{"nil", "nil"}
-		case "forall", "exists":
+		case "forall", "exists", "sum", "count":
+			if (t.v == "sum" || t.v == "count") && !(p.peek().k == "id" && p.p+1 < len(p.toks) && p.toks[p.p+1].k == "id" && p.toks[p.p+1].v == "in") {
+				// plain identifier / call named sum or count
+				if p.isOp("(") {
+					p.next()
+					var args []SExpr
+					for !p.isOp(")") {
+						args = append(args, p.parseIff())
+						if p.isOp(",") {
+							p.next()
+						}
+					}
+					p.next()
+					e = &SCall{t.v, args}
+				} else {
+					e = &SIdent{t.v}
+				}
+				break
+			}
 			q := &SQuant{Forall: t.v == "forall"}
+			if t.v == "sum" || t.v == "count" {
+				q.Kind = t.v
+			}
 			for {
 				name := p.next()
 				if name.k != "id" {
@@ -462,6 +487,7 @@ type Contract struct {
 	NoBody   bool
 	Assumes  []Clause // assume-config facts (listed in evidence)
 	Lemmas   []Clause // extra assertions proved at function exit
+	Hints    []Clause // proved at function exit BEFORE the postconditions, then assumed for the clauses that follow (proof steps)
 	Notes    []string
 	Decreases *Clause // termination measure for recursive functions
 	Fresh    bool // result is freshly allocated
@@ -498,7 +524,7 @@ var clauseKeywords = map[string]bool{
 	"func": true, "end": true, "props": true, "requires": true, "ensures": true, "modifies": true,
 	"pure": true, "loop": true, "invariant": true, "decreases": true, "unroll": true, "define": true,
 	"axiom": true, "constglobal": true, "stable": true, "usestable": true, "inline": true, "nopanic": true, "ieee": true, "assume": true,
-	"trusted": true, "note": true, "fresh": true, "lemma": true, "opaque": true, "declare": true, "import": true, "ghost": true,
+	"trusted": true, "note": true, "fresh": true, "lemma": true, "hint": true, "opaque": true, "declare": true, "import": true, "ghost": true,
 }
 
 func ParseContractFile(path string) (*ContractFile, error) {
@@ -625,6 +651,12 @@ func ParseContractFile(path string) (*ContractFile, error) {
 				return nil, err
 			}
 			cur.Lemmas = append(cur.Lemmas, c)
+		case "hint":
+			c, err := mk(rc)
+			if err != nil {
+				return nil, err
+			}
+			cur.Hints = append(cur.Hints, c)
 		case "assume":
 			c, err := mk(rc)
 			if err != nil {
